@@ -165,6 +165,16 @@ METHODS = ("wang", "gonze")
 LAYOUTS = ("full", "compact")
 ROUTES = ("qpoints", "dmrun")
 
+
+def routes_of(method, layout):
+    """call routes exercised for an object: the two production routes everywhere; on full force constants also
+    the non-OpenMP q-point loop, the pure-Python Wang branch and the Gonze-Lee object with all Ewald terms."""
+    r = list(ROUTES)
+    if layout == "full":
+        r.append("qpoints_py")
+        r.append("wang_py" if method == "wang" else "fullterms")
+    return r
+
 # tolerances (relative to the largest element of the plain dynamical matrix at the point);
 # observed on the unchanged tree: see ctx.extra["margins"]
 TOL = dict(gamma=1e-11, wang_comm=1e-11, gl_comm_bz=1e-9, gl_comm_recip=1e-3, zero_wang=1e-25, zero_gl=1e-11)
@@ -321,7 +331,7 @@ def replay_cfg(ctx, c, case, spec, margins, fname):
         exp = case.k_cart_expected(st["K"])
         runs = []
         for (method, layout), ph in objs.items():
-            for route in ROUTES:
+            for route in routes_of(method, layout):
                 try:
                     d1 = case.nac_dm(ph, gam0, route, direction=n_p)
                     d7 = case.nac_dm(ph, gam0, route, direction=lam * n_p)
@@ -375,7 +385,7 @@ def replay_cfg(ctx, c, case, spec, margins, fname):
             dpl = case.plain_dm(q_p)
             sc = max(np.abs(dpl).max(), nsc, 1e-300)
             for (method, layout), ph in objs.items():
-                for route in ROUTES:
+                for route in routes_of(method, layout):
                     try:
                         d1 = case.nac_dm(ph, q_p, route)
                     except Exception as e:
@@ -414,7 +424,7 @@ def replay_cfg(ctx, c, case, spec, margins, fname):
         sc = max(np.abs(dpl).max(), nsc, 1e-300)
         runs = []
         for (method, layout), ph in objs.items():
-            for route in ROUTES:
+            for route in routes_of(method, layout):
                 try:
                     d1 = case.nac_dm(ph, q_p, route)
                 except Exception as e:
@@ -424,6 +434,8 @@ def replay_cfg(ctx, c, case, spec, margins, fname):
                 ctx.count(("generic", c["id"], tuple(x), method, layout, route))
                 e1 = np.abs(d1 - dpl).max() / sc
                 key = "zero_wang" if method == "wang" else "zero_gl"
+                if route == "wang_py":
+                    key = "zero_gl"          # Python Fourier sum vs compiled plain matrix: rounding, not bitwise
                 if zero_born:
                     margins[key] = max(margins[key], e1)
                     if not (e1 <= TOL[key]):
